@@ -182,7 +182,7 @@ void Exec::op_c18(const Op& op) {
     int s0 = (int)op.num("s"), k = (int)op.num("k", 1); int pick = -1, first = -1;
     for (int i = 0; i < k && pick < 0; i++) { int s = s0 + i; if (s < 0 || s >= NSLOTS || !m.slots[s].live) continue; if (first < 0) first = s;
       for (auto& w : watches) if (w.freed && !w.purged && (w.lo >> 25) == ((uintptr_t)m.slots[s].p >> 25)) { pick = s; break; } }
-    last_free_near_seg = 0; if (pick >= 0) last_free_near_seg = ((uintptr_t)m.slots[pick].p >> 25);
+    last_free_near_seg = 0; if (pick >= 0 && m.slots[pick].u > 64*KiB) last_free_near_seg = ((uintptr_t)m.slots[pick].p >> 25);   // (only a block that owns its page(s) frees a page, which is what makes the segment look at its purge schedule)
     if (pick < 0) pick = first; if (pick >= 0) free_slot(pick, "free"); return; }
   if (nm == "expect") {
     std::string what = op.str("what", "purged");
@@ -204,41 +204,48 @@ static Case gen_c18(Chooser& ch) {
   if (!dec) {   // purge by reset only happens on fully committed ranges: make commits eager so that the expectation below is what the code promises
     c.push_back(Op("opt").s("name", "eager_commit_delay").u("v", 0)); c.push_back(Op("opt").s("name", "arena_eager_commit").u("v", 1)); c.push_back(Op("opt").s("name", "eager_commit").u("v", 1)); }
   else if (ch.chance(1, 3)) c.push_back(Op("opt").s("name", "eager_commit_delay").u("v", ch.pick(3)));
-  int slot = 0; size_t nfrees = 0;
+  int slot = 0;
   auto allocs = [&](int k, size_t n) { int s0 = slot; for (int i = 0; i < k; i++) c.push_back(Op("alloc").u("s", (uint64_t)slot++).s("f", ch.chance(1, 4) ? "zalloc" : "malloc").u("n", n).u("nt", 1)); return s0; };
   // a few ordinary small blocks first
   int base = allocs((int)ch.range(1, 20), (size_t)ch.range(8, 2000)); (void)base;
-  bool w1 = ch.chance(4, 5), w2 = ch.chance(4, 5), w3 = ch.chance(1, 4); if (!w1 && !w2) w1 = true;
-  int keep0 = -1, keepk = 0;
-  if (w1) {   // whole pages inside a segment that stays in use
-    size_t n = (size_t)ch.range(64*KiB + 1, 4*MiB); int k = (int)ch.range(2, 6); int s0 = allocs(k, n); keepk = (int)ch.range(2, 4); keep0 = allocs(keepk, n);
-    // free adjacent pages (they coalesce into one span) or every 2nd/3rd page (separate spans, each scheduled on its own within one delay window)
-    int step = (int)ch.range(1, 3); if (step > 1) { k = k * 2; for (int i = 0; i < k / 2; i++) c.push_back(Op("alloc").u("s", (uint64_t)slot++).s("f", "malloc").u("n", n).u("nt", 1)); }
-    c.push_back(Op("watch").u("s", (uint64_t)s0).u("k", (uint64_t)k)); c.push_back(Op("rfree").u("s", (uint64_t)s0).u("k", (uint64_t)k).u("step", (uint64_t)step).u("ph", 0)); nfrees += (size_t)k;
-    keepk = slot - s0; keep0 = s0;   // the blocks left live in between serve as keepers too
-    if (D == 0) c.push_back(Op("expect").s("what", "purged")); }
-  if (w2) {   // whole segments
-    int k = (int)ch.range(1, 3); int s0 = slot; for (int i = 0; i < k; i++) allocs(1, (size_t)ch.range(17*MiB, 60*MiB));
-    c.push_back(Op("watch").u("s", (uint64_t)s0).u("k", (uint64_t)k)); c.push_back(Op("rfree").u("s", (uint64_t)s0).u("k", (uint64_t)k).u("step", 1).u("ph", 0)); nfrees += (size_t)k;
-    if (D == 0) c.push_back(Op("expect").s("what", "purged")); }
-  if (w3) {   // free everything (the keepers too)
-    c.push_back(Op("watch").u("s", 0).u("k", (uint64_t)slot)); c.push_back(Op("rfree").u("s", 0).u("k", (uint64_t)slot).u("step", 1).u("ph", 0)); nfrees += (size_t)slot; keep0 = -1;
-    if (D == 0) c.push_back(Op("expect").s("what", "purged")); }
-  if (D == 0) return c;
-  long delay = (D < 0 ? 10 : D); size_t tick = (size_t)(delay * M) + 100 * nfrees + 1000 + (size_t)ch.range(0, 5000);
-  c.push_back(Op("tick").u("ms", tick));
-  // ordinary activity, never a forced collect
-  int rounds = (int)ch.range(1, 3);
-  for (int r = 0; r < rounds; r++) {
+  // 1-3 cycles of (free whole pages / whole segments, let the delay pass, ordinary activity, expectation): a later cycle finds the purge
+  // bookkeeping (segment purge masks, per-arena and global expiry) in the state the previous cycle left it in
+  int cycles = (int)(ch.chance(1, 2) ? 1 : ch.range(2, 3));
+  for (int cy = 0; cy < cycles && slot < NSLOTS - 200; cy++) {
+    size_t nfrees = 0; int first_slot = slot;
+    bool w1 = ch.chance(4, 5), w2 = ch.chance(4, 5), w3 = (cy == cycles - 1) && ch.chance(1, 4); if (!w1 && !w2) w1 = true;
+    int keep0 = -1, keepk = 0;
+    if (w1) {   // whole pages inside a segment that stays in use
+      size_t n = (size_t)ch.range(64*KiB + 1, 4*MiB); int k = (int)ch.range(2, 6); int s0 = allocs(k, n); keepk = (int)ch.range(2, 4); keep0 = allocs(keepk, n);
+      // free adjacent pages (they coalesce into one span) or every 2nd/3rd page (separate spans, each scheduled on its own within one delay window)
+      int step = (int)ch.range(1, 3); if (step > 1) { k = k * 2; for (int i = 0; i < k / 2; i++) c.push_back(Op("alloc").u("s", (uint64_t)slot++).s("f", "malloc").u("n", n).u("nt", 1)); }
+      c.push_back(Op("watch").u("s", (uint64_t)s0).u("k", (uint64_t)k)); c.push_back(Op("rfree").u("s", (uint64_t)s0).u("k", (uint64_t)k).u("step", (uint64_t)step).u("ph", 0)); nfrees += (size_t)k;
+      keepk = slot - s0; keep0 = s0;   // the blocks left live in between serve as keepers too
+      if (D == 0) c.push_back(Op("expect").s("what", "purged")); }
+    if (w2) {   // whole segments
+      int k = (int)ch.range(1, 3); int s0 = slot; for (int i = 0; i < k; i++) allocs(1, (size_t)ch.range(17*MiB, 60*MiB));
+      c.push_back(Op("watch").u("s", (uint64_t)s0).u("k", (uint64_t)k)); c.push_back(Op("rfree").u("s", (uint64_t)s0).u("k", (uint64_t)k).u("step", 1).u("ph", 0)); nfrees += (size_t)k;
+      if (D == 0) c.push_back(Op("expect").s("what", "purged")); }
+    if (w3) {   // free everything (the keepers too)
+      c.push_back(Op("watch").u("s", 0).u("k", (uint64_t)slot)); c.push_back(Op("rfree").u("s", 0).u("k", (uint64_t)slot).u("step", 1).u("ph", 0)); nfrees += (size_t)slot; keep0 = -1;
+      if (D == 0) c.push_back(Op("expect").s("what", "purged")); }
+    (void)first_slot;
+    if (D == 0) continue;
+    long delay = (D < 0 ? 10 : D); size_t tick = (size_t)(delay * M) + 100 * nfrees + 1000 + (size_t)ch.range(0, 5000);
+    c.push_back(Op("tick").u("ms", tick));
+    // ordinary activity, never a forced collect
+    int rounds = (int)ch.range(1, 3);
+    for (int r = 0; r < rounds; r++) {
+      c.push_back(Op("collect").u("force", 0));
+      if (keep0 >= 0) c.push_back(Op("free_near").u("s", (uint64_t)keep0).u("k", (uint64_t)keepk));
+      int s = slot++; c.push_back(Op("alloc").u("s", (uint64_t)s).s("f", "malloc").u("n", (size_t)ch.range(64*KiB + 1, 2*MiB)).u("nt", 1)); c.push_back(Op("free").u("s", (uint64_t)s));
+      { int t = slot++; c.push_back(Op("alloc").u("s", (uint64_t)t).s("f", "malloc").u("n", (size_t)ch.range(17*MiB, 40*MiB)).u("nt", 1)); c.push_back(Op("free").u("s", (uint64_t)t)); }
+      c.push_back(Op("collect").u("force", 0));
+      c.push_back(Op("tick").u("ms", (size_t)ch.range(20, 3000)));
+    }
     c.push_back(Op("collect").u("force", 0));
-    if (keep0 >= 0) c.push_back(Op("free_near").u("s", (uint64_t)keep0).u("k", (uint64_t)keepk));
-    int s = slot++; c.push_back(Op("alloc").u("s", (uint64_t)s).s("f", "malloc").u("n", (size_t)ch.range(64*KiB + 1, 2*MiB)).u("nt", 1)); c.push_back(Op("free").u("s", (uint64_t)s));
-    { int t = slot++; c.push_back(Op("alloc").u("s", (uint64_t)t).s("f", "malloc").u("n", (size_t)ch.range(17*MiB, 40*MiB)).u("nt", 1)); c.push_back(Op("free").u("s", (uint64_t)t)); }
-    c.push_back(Op("collect").u("force", 0));
-    c.push_back(Op("tick").u("ms", (size_t)ch.range(20, 3000)));
+    c.push_back(Op("expect").s("what", D < 0 ? "none" : "purged"));
   }
-  c.push_back(Op("collect").u("force", 0));
-  c.push_back(Op("expect").s("what", D < 0 ? "none" : "purged"));
   return c;
 }
 
